@@ -61,7 +61,9 @@ class TimeShim:
         if h is None:
             return real_time.time()
         h.counters["time.time"] += 1
-        return float(h.now)
+        # strictly increasing like a real clock (never two equal readings), whole seconds unchanged
+        h.tcalls += 1
+        return float(h.now) + min(h.tcalls * 2e-6, 0.45)
 
     def sleep(self, s):
         h = CUR
@@ -534,6 +536,7 @@ class Harness:
         self.slot_wait = slot_wait
         self.watchdog = watchdog
         self.now = BASE_TIME
+        self.tcalls = 0
         self.events: list[dict] = []
         self.seq = 0
         self.activity = 0
@@ -597,6 +600,9 @@ class Harness:
 
     # ----- gate
     def _gate_select(self, r, w, x, timeout):
+        for o in list(r) + list(w):
+            if isinstance(o, ShimSocket) and o.closed:
+                raise ValueError("file descriptor cannot be a negative integer (-1)")
         if real_threading.current_thread() is not getattr(self.node, "_connection_thread", None):
             return self._real_select(r, w, x, 0)
         with self.cv:
@@ -624,7 +630,7 @@ class Harness:
             if isinstance(o, ShimSocket):
                 fd = o.fileno()
                 if fd < 0:
-                    raise ValueError("file descriptor cannot be a negative integer (-1)")
+                    continue   # closed by another thread while this select() was sleeping
                 rmap[fd] = o
                 rr.append(fd)
             else:
@@ -636,7 +642,7 @@ class Harness:
                     continue
                 fd = o.fileno()
                 if fd < 0:
-                    raise ValueError("file descriptor cannot be a negative integer (-1)")
+                    continue
                 wmap[fd] = o
                 ww.append(fd)
             else:
@@ -723,6 +729,7 @@ class Harness:
     def advance(self, dt):
         with HLOCK:
             self.now += dt
+            self.tcalls = 0
         self.log("advance", dt=dt)
 
     # ----- connections
